@@ -24,6 +24,9 @@ Every rule then sees the same tree for
                                                           top-level call of the next statement, so the order of
                                                           evaluation is unchanged)
 
+    if c: ..exit  else: REST   ->  if c: ..exit; REST    (no else after a branch that always leaves)
+    self.n = self.n - 1        ->  self.n -= 1           (integer constant)
+
 Positions of the original nodes are kept, so reports still point at the source line.  `tools/equiv_probe.py`
 applies the inverse rewrites to every module and checks that every rule stays silent.
 """
@@ -182,6 +185,14 @@ class Canon(ast.NodeTransformer):
         node = self.generic_visit(node)
         node.test = _truth_form(node.test)
         if node.orelse:
+            jump = lambda blk: len(blk) == 1 and isinstance(blk[0], (ast.Continue, ast.Break))  # noqa: E731
+            leave = lambda blk: len(blk) == 1 and isinstance(blk[0], (ast.Continue, ast.Break, ast.Return, ast.Raise))  # noqa: E731
+            ends = lambda blk: bool(blk) and isinstance(blk[-1], (ast.Continue, ast.Break, ast.Return, ast.Raise))  # noqa: E731
+            if jump(node.body) or (leave(node.body) and ends(node.orelse)):
+                return node  # `if c: <leave>  else: REST` becomes `if c: <leave>; REST` below, whatever the spelling of c
+            if jump(node.orelse) or (leave(node.orelse) and ends(node.body)):
+                # the short way out comes first: `if c: A else: continue` / `if c: ..; return r  else: return []`
+                return ast.copy_location(ast.If(test=_not(node.test), body=node.orelse, orelse=node.body), node)
             pos = _positive(node.test)
             if pos is not None:
                 node = ast.copy_location(ast.If(test=pos, body=node.orelse, orelse=node.body), node)
@@ -203,6 +214,11 @@ class Canon(ast.NodeTransformer):
 
     def visit_Assign(self, node: ast.Assign):
         node = self.generic_visit(node)
+        if len(node.targets) == 1 and isinstance(node.targets[0], ast.Attribute) and isinstance(node.value, ast.BinOp) and isinstance(node.value.op, (ast.Add, ast.Sub)):
+            # `self.n = self.n - 1` -> `self.n -= 1` (an integer constant: the attribute holds a number)
+            val = node.value
+            if isinstance(val.right, ast.Constant) and isinstance(val.right.value, int) and not isinstance(val.right.value, bool) and isinstance(val.left, ast.Attribute) and ast.dump(val.left.value) == ast.dump(node.targets[0].value) and val.left.attr == node.targets[0].attr:
+                return ast.copy_location(ast.AugAssign(target=node.targets[0], op=val.op, value=val.right), node)
         if len(node.targets) == 1 and isinstance(node.targets[0], ast.Name) and node.targets[0].id in self.numeric[-1]:
             name = node.targets[0].id
             val = node.value
@@ -271,6 +287,53 @@ def _inline_return_locals(fn: ast.AST) -> None:
                 continue
             i += 1
 
+    def exits(stmts: List[ast.stmt]) -> bool:
+        return bool(stmts) and isinstance(stmts[-1], (ast.Return, ast.Raise, ast.Continue, ast.Break))
+
+    def no_else_after_exit(stmts: List[ast.stmt], is_elif: bool = False) -> None:
+        """`if c: ...exit  else: REST` -> `if c: ...exit; REST` (also through elif chains);
+        `if c: A  else: <leave>` -> `if not c: <leave>; A` (not for the last arm of an elif chain: a dispatch with a
+        final `else: raise` stays a dispatch)"""
+        i = 0
+        while i < len(stmts):
+            st = stmts[i]
+            if isinstance(st, ast.If) and st.orelse and exits(st.body):
+                rest = st.orelse
+                st.orelse = []
+                stmts[i + 1:i + 1] = rest
+            elif (
+                isinstance(st, ast.If) and not is_elif and len(st.orelse) == 1
+                and isinstance(st.orelse[0], (ast.Return, ast.Raise, ast.Continue, ast.Break))
+            ):
+                rest = st.body
+                st.test = _not(st.test)
+                st.body = st.orelse
+                st.orelse = []
+                stmts[i + 1:i + 1] = rest
+            i += 1
+
+    def return_ifexp(stmts: List[ast.stmt]) -> None:
+        """`if c: return a` directly followed by `return b` -> `return a if c else b`"""
+        i = 0
+        while i + 1 < len(stmts):
+            a, b = stmts[i], stmts[i + 1]
+            if (
+                isinstance(a, ast.If) and not a.orelse and len(a.body) == 1 and isinstance(a.body[0], ast.Return) and a.body[0].value is not None
+                and isinstance(b, ast.Return) and b.value is not None
+            ):
+                cond = ast.copy_location(ast.IfExp(test=a.test, body=a.body[0].value, orelse=b.value), a)
+                pos = _positive(cond.test)
+                if pos is not None:
+                    cond = ast.copy_location(ast.IfExp(test=pos, body=cond.orelse, orelse=cond.body), a)
+                stmts[i:i + 2] = [ast.copy_location(ast.Return(value=cond), a)]
+                continue
+            i += 1
+
+    for n in list(ast.walk(fn)):
+        for fname in ("body", "orelse", "finalbody"):
+            blk = getattr(n, fname, None)
+            if isinstance(blk, list) and blk and isinstance(blk[0], ast.stmt):
+                no_else_after_exit(blk, is_elif=(fname == "orelse" and isinstance(n, ast.If) and len(blk) == 1 and isinstance(blk[0], ast.If)))
     for n in ast.walk(fn):
         for fname in ("body", "orelse", "finalbody"):
             blk = getattr(n, fname, None)
